@@ -1,6 +1,6 @@
 // C07.a / C07.g / C07.a.stale: one inductive step of Db::setLocatorByUID (src/Db/Db.cpp) with
 // PtrGeos::findUIDInLocator/erase/resize/setLocatorByIndex and Db::clearLocators, from an arbitrary
-// pre-state satisfying the representation invariant I (see dbstate.h: vf_db_valid).
+// pre-state satisfying the representation invariant I (see dbstate.h: vf_db_tables).
 //
 // The *shape* of a step is a configuration (list lengths, target role type, rank argument, clean flag,
 // where the identifier sits in the pre-state); the configuration number is a symbolic input, so one
